@@ -1,8 +1,12 @@
 /*
  * models/aws_time.c -- assumed contracts (G6) of time(2), gmtime_r(3), strftime(3) as aws/aws_sign.c uses them.
  *
- * time(t):      returns an arbitrary time_t (a fresh one on every call; (time_t)-1 included = the error return)
- *               and stores it in *t when t != NULL.
+ * time(t):      success path only: the k-th call returns the constant AWS_TIME_BASE + k (distinct values for
+ *               distinct calls, never (time_t)-1) and stores it in *t when t != NULL.  Because gmtime_r below is an
+ *               uninterpreted function, "some constant, different for each call" is as general as "arbitrary": the
+ *               value is used for nothing else.  A constant is needed because the symbolic execution must decide
+ *               `time(&t) == (time_t)-1` (otherwise the error path rejoins at the caller's return and the merged
+ *               ghost state is symbolic, see models/aws_fmt.c).  -DAWS_TIME_MAYFAIL: arbitrary, -1 included.
  * gmtime_r(t,r):an UNINTERPRETED deterministic function of *t: the first evaluation at a given argument picks an
  *               arbitrary well-formed broken-down time (year 1000..9999, month 0..11, day 1..31, hour 0..23,
  *               minute 0..59, second 0..60); a repeated evaluation at the SAME argument returns the same value;
@@ -24,6 +28,10 @@
 
 struct aws_time_ghost g_aws_time;
 
+#ifndef AWS_TIME_BASE
+#define AWS_TIME_BASE 1700000000
+#endif
+
 #ifndef VERIF_NATIVE
 time_t nondet_time_t(void);
 int nondet_int(void);
@@ -34,8 +42,13 @@ int nondet_int(void);
 time_t
 time(time_t * t)
 {
-	time_t v = nondet_time_t();
+	time_t v;
 
+#ifdef AWS_TIME_MAYFAIL
+	v = nondet_time_t();			/* failure-path groups: anything, (time_t)-1 included */
+#else
+	v = (time_t)(AWS_TIME_BASE + g_aws_time.time_calls);
+#endif
 	g_aws_time.time_calls++;
 	if (t != NULL)
 		*t = v;
